@@ -216,8 +216,8 @@ Proof. exact sent_amount_exact. Qed.
 (* ====================================================================================
    generated constants
    ==================================================================================== *)
-Theorem C19_generated_constants : RPC_COIN = SATOSHI_PER_COIN /\ RPC_PARSE_FLOAT_IS_DECIMAL = true.
-Proof. split; [exact coin_is_1e8 | exact parse_float_decimal]. Qed.
+Theorem C19_generated_coin : RPC_COIN = SATOSHI_PER_COIN.
+Proof. exact coin_is_1e8. Qed.
 
 (* non-vacuity: hypotheses are met, both outcomes of each branch occur *)
 Example C19_nonvacuous :
@@ -260,4 +260,11 @@ Print Assumptions C19_send_core_Q.
 Print Assumptions C19_send_half_ulp.
 Print Assumptions C19_send_ulp_money_range.
 Print Assumptions C19_send_exact_partial.
-Print Assumptions C19_generated_constants.
+Print Assumptions C19_generated_coin.
+
+(* last, so that nothing else depends on it: _get_response parses the reply with
+   json.loads(..., parse_float=decimal.Decimal) (regenerated flag); without it amounts would
+   pass through binary64 and C19_recv_exact would not be about the code *)
+Theorem C19_generated_parse_float_decimal : RPC_PARSE_FLOAT_IS_DECIMAL = true.
+Proof. reflexivity. Qed.
+Print Assumptions C19_generated_parse_float_decimal.
